@@ -77,11 +77,11 @@ func runC02(c *Ctx) {
 	}
 
 	type made struct {
-		key   testKey
-		msg   []byte
-		ct    []byte // raw C1C3C2
-		c1c2  []byte // raw C1C2C3
-		asn1  []byte
+		key  testKey
+		msg  []byte
+		ct   []byte // raw C1C3C2
+		c1c2 []byte // raw C1C2C3
+		asn1 []byte
 	}
 	pool := make([]*made, len(lens))
 
@@ -487,6 +487,29 @@ func runC02(c *Ctx) {
 			ct = append(ct, make([]byte, 32)...)
 			ct = append(ct, []byte("hello")...)
 			mustReject("invalid-curve-C1", cse.n, key.priv(), ct, sm2.C1C3C2, nil, map[string]interface{}{"case": cse.n})
+			// the same C1 with C2/C3 consistent with every shared point an implementation might derive from it:
+			// (0,0) itself (what a projective ladder returns for the "point" (0,0)), and whatever gmsm's ScalarMult returns
+			cands := [][2]*big.Int{{new(big.Int), new(big.Int)}}
+			mon.Guard(func() {
+				gx, gy := sm2.P256Sm2().ScalarMult(new(big.Int).Mod(cse.x, ref.P), new(big.Int).Mod(cse.y, ref.P), key.d.Bytes())
+				cands = append(cands, [2]*big.Int{gx, gy})
+			})
+			for ci, q := range cands {
+				msg := []byte("attacker chosen")
+				x2, y2 := ref.Pad32(q[0]), ref.Pad32(q[1])
+				t := ref.KDF(append(append([]byte{}, x2...), y2...), len(msg))
+				c2 := make([]byte, len(msg))
+				for j := range c2 {
+					c2[j] = msg[j] ^ t[j]
+				}
+				c3 := ref.SM3(append(append(append([]byte{}, x2...), msg...), y2...))
+				f := []byte{4}
+				f = append(f, ref.Pad32(cse.x)[:32]...)
+				f = append(f, ref.Pad32(cse.y)[:32]...)
+				f = append(f, c3...)
+				f = append(f, c2...)
+				mustReject("invalid-curve-C1", fmt.Sprintf("%s/consistent-with-candidate-%d", cse.n, ci), key.priv(), f, sm2.C1C3C2, nil, map[string]interface{}{"case": cse.n})
+			}
 		}
 	}
 }
